@@ -43,6 +43,10 @@ class SplitPoint(Exception):
     """Raised at the exploration frontier when only decision-tree prefixes are being enumerated."""
 
 
+# absolute time after which explorations give up (set by a driver before forking workers; None = no budget)
+DEADLINE = None
+
+
 class Stats:
     def __init__(self):
         self.queries = 0
@@ -115,6 +119,8 @@ class Explorer:
     # ------------------------------------------------------------------ solver
     def check(self, *extra, important=False) -> str:
         t0 = time.time()
+        if DEADLINE is not None and t0 > DEADLINE:
+            raise Unsupported('time budget of this exploration phase exhausted')
         r = self.smt.check(extra, important=important)
         dt = time.time() - t0
         self.stats.queries += 1
@@ -617,6 +623,10 @@ class Frame:
             f = prog.funcs[cands[0]]
             if f.kind == 'constval':
                 return self.const(f.const_value)
+            if re.match(r'^(?:std::thread::)?LocalKey<', f.ret_type.strip()):
+                # a `thread_local!` key: modelled by the stubs of LocalKey::with (per-thread slot, lazily initialised
+                # by the key's own init function) instead of std's storage internals
+                return Native('LocalKey', f.name, fresh_id())
             return Frame(ex, f).run([])
         if len(cands) > 1:
             # prefer same-module
@@ -1282,7 +1292,10 @@ def dispatch(ex: Explorer, frame: Frame, callee: str, args: List[Any]):
         return h(ex, args, callee)
 
     # 2. crate functions
-    #    a) free functions
+    #    a) free functions (also when printed with a module / crate path, e.g. #[doc(hidden)] items, which rustc
+    #       never prints by their trimmed name)
+    if ty is not None and tr is None and re.match(r'^[a-z_][a-z0-9_]*(::[a-z_][a-z0-9_]*)*$', ty.strip()) and method in prog.free:
+        ty = None
     if ty is None:
         c = prog.free.get(method, [])
         if len(c) > 1:
